@@ -84,12 +84,33 @@ class DecoderModel:
                     if self.payload_local is None or cfg.dominates(d[0], self.payload_def[0]) and d[0] != self.payload_def[0]:
                         self.payload_local = l
                         self.payload_def = d
+        self.payload_path = []
+        if self.payload_local is None:
+            # the cursor may be the slice-typed field of a small private struct built around the payload
+            # (`struct Cursor<'a> { rest: &'a [u8] }` with reader methods that were spliced in)
+            for l, decl in enumerate(fn.locals):
+                if l <= fn.arg_count or decl["ty"].get("k") != "adt":
+                    continue
+                d = an.unique_def(l)
+                rv = getattr(d[2], "rv", None) if d is not None else None
+                if rv is None or rv.kind != "aggregate" or rv.j.get("agg") != "adt":
+                    continue
+                e = an.rvalue_expr(rv, d[0], d[1])
+                if e.k != "agg" or not isinstance(e.a[1], dict):
+                    continue
+                for fname, fe in e.a[1].items():
+                    p = ok_payload(strip(fe))
+                    if p is not None and same_value(p, outer_expr):
+                        if any(ev["kind"] == "mutcall" and ev["path"][:1] == [fname] for evs2 in an.events(l, False).values() for ev in evs2):
+                            self.payload_local = l
+                            self.payload_def = d
+                            self.payload_path = [fname]
         if self.payload_local is None:
             self.problem("cannot identify the payload cursor (the slice returned by the outer header read)")
             return
         # ---- the cursor may be handed on by value (`fn pairs(mut payload: &[u8])` inlined): the copy is the cursor from then on
         self.cursor_chain = [self.payload_local]
-        grown = True
+        grown = not self.payload_path
         while grown and len(self.cursor_chain) < 6:
             grown = False
             last = self.cursor_chain[-1]
@@ -128,6 +149,12 @@ class DecoderModel:
         for n, cl in enumerate(self.cursor_chain):
             for bb, lst in an.events(cl, False).items():
                 for ev in lst:
+                    if self.payload_path:
+                        # the cursor is a field of the local: only events on that field count, seen as events on the cursor itself
+                        if ev["path"][:len(self.payload_path)] != self.payload_path:
+                            continue
+                        ev = dict(ev)
+                        ev["path"] = ev["path"][len(self.payload_path):]
                     if n > 0 and ev["kind"] == "def" and not (len(an.defs().get(cl, [])) > 1):
                         continue
                     if n < len(self.cursor_chain) - 1 and ev["kind"] in ("move", "read") :
@@ -230,6 +257,8 @@ class DecoderModel:
         if base is None:
             return None
         # the base is the cursor itself
+        if self.payload_path and any(x.k == "field" and x.a[1] == self.payload_path[0] and any(y.k == "mutated" and y.a[1] in self.cursor_chain for y in x.walk()) for x in base.walk()):
+            return strip(amt)
         if not any(x.k == "mutated" and x.a[1] in self.cursor_chain for x in base.walk()) and not same_value(unmut(base), unmut(an.rvalue_expr(self.payload_def[2].rv, self.payload_def[0], self.payload_def[1]))):
             return None
         return strip(amt)
@@ -305,7 +334,16 @@ class DecoderModel:
                 continue
             break
         region = self.leaf_region(leaf)
-        alts = e.a[0] if e.k == "phi" else [e]
+        alts = []
+
+        def flat(x, depth=0):
+            x = strip(x)
+            if x.k == "phi" and depth < 6:
+                for y in x.a[0]:
+                    flat(y, depth + 1)
+            else:
+                alts.append(x)
+        flat(e)
         out = []
         for a in alts:
             a = strip(a)
